@@ -106,7 +106,11 @@ func c11BuildPlugin(r *wk.Rand) *c11Plugin {
 			sS, sT := mk()
 			p.sigShape[id][hid] = sS
 			stepID := id
-			handlers[hid] = schema.NewCallableSignal[*c11StepData, any](hid, sT, nil, func(hctx context.Context, d *c11StepData, in any) {
+			ownID := hid
+			if hi == 1 {
+				ownID = "own-id-of-" + hid // the key under which the step advertises a handler is what callers use
+			}
+			handlers[hid] = schema.NewCallableSignal[*c11StepData, any](ownID, sT, nil, func(hctx context.Context, d *c11StepData, in any) {
 				p.rec.mu.Lock()
 				p.rec.sigCalls = append(p.rec.sigCalls, c11Call{stepID + "/" + hid, in, d.token, c11Run(hctx)})
 				p.rec.mu.Unlock()
@@ -251,6 +255,14 @@ func runC11(c *wk.Ctx) {
 	n := c.N(400, 36000)
 	if c.Variant != "plain" {
 		n = c.N(120, 9000)
+	}
+	if c.Variant == "plain" {
+		for k, others := range []int{1, 100, 1030, 2100, 5000} {
+			if c.Mine(int64(k)) {
+				c.Begin(int64(k), "step data across many other runs")
+				c11ManyRuns(c, others)
+			}
+		}
 	}
 	c.Cases(n, func(idx int64, r *wk.Rand) {
 		r0 := *r
@@ -782,3 +794,82 @@ func c11Concurrent(c *wk.Ctx, ctx context.Context, r *wk.Rand, p *c11Plugin, fre
 }
 
 func init() { register("C11", runC11) }
+
+// c11ManyRuns: the step data of a run is kept however many other runs of the same step come in between its creation
+// and its next use (a signal long before the step, a step long before a late signal).
+func c11ManyRuns(c *wk.Ctx, others int) {
+	var inits atomic.Int64
+	var mu sync.Mutex
+	stepSaw, sigSaw := map[string][]int64{}, map[string][]int64{}
+	empty := func() *schema.ScopeSchema {
+		return gen.Build(&gen.Shape{Kind: gen.KScope, Root: "E", Objects: []*gen.Shape{{Kind: gen.KObject, ID: "E"}}}).(*schema.ScopeSchema)
+	}
+	step := schema.NewCallableStepWithSignals[*c11StepData, any]("many", empty(),
+		map[string]*schema.StepOutputSchema{"done": schema.NewStepOutputSchema(empty(), nil, false)},
+		map[string]schema.CallableSignal{"note": schema.NewCallableSignal[*c11StepData, any]("note", empty(), nil, func(hctx context.Context, d *c11StepData, _ any) {
+			mu.Lock()
+			sigSaw[c11Run(hctx)] = append(sigSaw[c11Run(hctx)], d.token)
+			mu.Unlock()
+		})}, nil, nil,
+		func() *c11StepData { return &c11StepData{token: inits.Add(1)} },
+		func(hctx context.Context, d *c11StepData, _ any) (string, any) {
+			mu.Lock()
+			stepSaw[c11Run(hctx)] = append(stepSaw[c11Run(hctx)], d.token)
+			mu.Unlock()
+			return "done", map[string]any{}
+		})
+	pl := schema.NewCallableSchema(step)
+	ctxOf := func(run string) context.Context { return context.WithValue(context.Background(), c11RunKey{}, run) }
+	sig := func(run string) error { return pl.CallSignal(ctxOf(run), run, "many", "note", map[string]any{}) }
+	call := func(run string) error {
+		_, _, err := pl.CallStep(ctxOf(run), run, "many", map[string]any{})
+		return err
+	}
+	c.Note(fmt.Sprintf("step data across %d other runs", others))
+	var firstErr error
+	note := func(err error) {
+		if err != nil && firstErr == nil {
+			firstErr = err
+		}
+	}
+	if p, site, msg, _ := wk.Guard(func() {
+		note(sig("signal-long-before-step"))
+		note(call("step-long-before-signal"))
+		for i := 0; i < others; i++ {
+			run := fmt.Sprintf("other-%d", i)
+			if i%2 == 0 {
+				note(sig(run))
+			}
+			note(call(run))
+		}
+		note(call("signal-long-before-step"))
+		note(sig("signal-long-before-step"))
+		note(sig("step-long-before-signal"))
+	}); p {
+		c.Violation("C11:panic:many-runs:"+site, "a call panicked in the many-runs round: "+msg, nil)
+		return
+	}
+	c.Count("many_runs_rounds")
+	c.CountN("calls", int64(2*others+5))
+	c.Eval(wk.Hash64("many-runs", fmt.Sprint(others)), true)
+	wit := map[string]any{"other_runs_in_between": others}
+	if firstErr != nil {
+		c.Violation("C11:many-runs:call-failed", fmt.Sprintf("a valid call failed in the many-runs round: %v", firstErr), wit)
+		return
+	}
+	mu.Lock()
+	defer mu.Unlock()
+	for _, run := range []string{"signal-long-before-step", "step-long-before-signal"} {
+		tokens := map[int64]bool{}
+		for _, t := range append(append([]int64{}, stepSaw[run]...), sigSaw[run]...) {
+			tokens[t] = true
+		}
+		wit[run] = map[string]any{"step_saw": stepSaw[run], "signals_saw": sigSaw[run]}
+		if len(tokens) != 1 {
+			c.Violation("C11:step-data-created-more-than-once-per-run:many-runs", fmt.Sprintf("run %q: the step handler saw step data %v, its signal handlers %v - after %d other runs of the step in between they are no longer the same", run, stepSaw[run], sigSaw[run], others), wit)
+		}
+	}
+	if want := int64(others + 2); inits.Load() != want {
+		c.Violation("C11:initializer-count:many-runs", fmt.Sprintf("%d run IDs were used, the initialiser ran %d times", want, inits.Load()), wit)
+	}
+}
